@@ -71,6 +71,9 @@ pub fn choose(rng: &mut StdRng, p: &Pos, legal: &[Mv], policy: Policy) -> Mv {
     legal[0]
 }
 
+/// largest half-move clock inside the domain of the make/unmake properties (C03: 0..4095)
+pub const MAX_HALF_CLOCK: u32 = 4095;
+
 pub const HALF_CLOCKS: [u32; 14] = [0, 1, 49, 50, 98, 99, 100, 127, 128, 129, 255, 256, 1000, 4095];
 pub const FULL_CLOCKS: [u32; 7] = [1, 2, 100, 2499, 2500, 2501, 30000];
 
@@ -338,7 +341,12 @@ pub fn walk(rng: &mut StdRng, start: &Pos, policy: Policy, max_plies: usize) -> 
             break;
         }
         let m = choose(rng, &cur, &legal, policy);
-        cur = cur.make(m);
+        let next = cur.make(m);
+        // the properties' domain for make/unmake is a half-move clock of 0..=4095
+        if next.half > MAX_HALF_CLOCK {
+            break;
+        }
+        cur = next;
         ms.push(m);
         ps.push(cur.clone());
     }
@@ -374,4 +382,53 @@ impl Starts {
         };
         with_clocks(rng, &base, self.max_half, self.max_full)
     }
+}
+
+/// A materially lost side to move that has a forced four-ply perpetual-check cycle
+/// (check, single legal reply, check, single legal reply, back to the same position).
+/// Returns the position and the cycle.
+pub fn perpetual_position(rng: &mut StdRng) -> Option<(Pos, [Mv; 4])> {
+    for _ in 0..20000 {
+        let weak_white = rng.gen_bool(0.5);
+        let s: i8 = if weak_white { 1 } else { -1 };
+        let mut p = Pos { b: [0; 64], wtm: weak_white, castle: [false; 4], ep: None, half: rng.gen_range(0..20), full: rng.gen_range(1..300) };
+        // strong king near a corner, boxed in by its own men
+        let corner_f = if rng.gen_bool(0.5) { 0 } else { 7 };
+        let corner_r = if rng.gen_bool(0.5) { 0 } else { 7 };
+        let kf = (corner_f as i32 + if corner_f == 0 { rng.gen_range(0..2) } else { -rng.gen_range(0..2) }) as i32;
+        let kr = (corner_r as i32 + if corner_r == 0 { rng.gen_range(0..2) } else { -rng.gen_range(0..2) }) as i32;
+        p.b[sq(kf, kr) as usize] = -s * K;
+        let put = |p: &mut Pos, pc: i8, rng: &mut StdRng, near: Option<(i32, i32)>| {
+            for _ in 0..60 {
+                let (f, r) = match near { Some((nf, nr)) => (nf + rng.gen_range(-2..=2), nr + rng.gen_range(-2..=2)), None => (rng.gen_range(0..8), rng.gen_range(0..8)) };
+                if !(0..8).contains(&f) || !(0..8).contains(&r) { continue; }
+                if pc.abs() == P && (r == 0 || r == 7) { continue; }
+                if p.b[sq(f, r) as usize] == 0 { p.b[sq(f, r) as usize] = pc; return; }
+            }
+        };
+        for _ in 0..rng.gen_range(1..4) { put(&mut p, -s * P, rng, Some((kf, kr))); }
+        for k in [Q, R, R, N, B].iter().take(rng.gen_range(2..=5)) { let near = if rng.gen_bool(0.3) { Some((kf, kr)) } else { None }; put(&mut p, -s * k, rng, near); }
+        put(&mut p, s * K, rng, None);
+        put(&mut p, s * Q, rng, Some((kf, kr)));
+        if rng.gen_bool(0.3) { let k = *[N, B, R].choose(rng).unwrap(); put(&mut p, s * k, rng, Some((kf, kr))); }
+        if !p.is_legal_position() || p.in_check(p.wtm) { continue; }
+        for a in p.legal_moves() {
+            let pa = p.make(a);
+            if !pa.in_check(pa.wtm) { continue; }
+            let ra = pa.legal_moves();
+            if ra.len() != 1 || pa.is_capture(ra[0]) { continue; }
+            let pb = pa.make(ra[0]);
+            for a2 in pb.legal_moves() {
+                let pa2 = pb.make(a2);
+                if !pa2.in_check(pa2.wtm) || pb.is_capture(a2) { continue; }
+                let r2 = pa2.legal_moves();
+                if r2.len() != 1 || pa2.is_capture(r2[0]) { continue; }
+                let back = pa2.make(r2[0]);
+                if back.key() == p.key() && !p.is_capture(a) {
+                    return Some((p, [a, ra[0], a2, r2[0]]));
+                }
+            }
+        }
+    }
+    None
 }
